@@ -155,11 +155,14 @@ Fixpoint leaf_pats (q : query) : list pat :=
   | QAnd l r | QOr l r | QNAnd l r => leaf_pats l ++ leaf_pats r
   end.
 
+Section WithMatcher.
+Context {tm : Matcher}.
+
 (* what a search leaves behind: GetLIDs was called on the all-token and on every token matching a leaf *)
 Definition touch (st : astate) (q : query) : astate :=
   let m := a_mids st in let r := a_rids st in
   {| a_mids := m; a_rids := r; a_all := get_lids m r (a_all st); a_keys := a_keys st;
-     a_tl := fun u => if existsb (fun p => pat_match p u) (leaf_pats q) then get_lids m r (a_tl st u)
+     a_tl := fun u => if existsb (fun p => tok_match p u) (leaf_pats q) then get_lids m r (a_tl st u)
                       else a_tl st u |}.
 
 (* the IDs index as IndexSearch sees it: position p (LID p+1) holds the ID of internal LID values[p]
@@ -172,7 +175,7 @@ Definition leaf_tx (st : astate) (inversion : list N) (minLID maxLID : N) (p : p
   build_or_tree
     (map (fun t => NStatic (inverse_lids (t_sorted (get_lids (a_mids st) (a_rids st) (a_tl st t)))
                                          inversion minLID maxLID))
-         (filter (pat_match p) (a_keys st))).
+         (filter (tok_match p) (a_keys st))).
 
 Definition tree_lids_tx (st : astate) (q : query) (from to : N) (rev : bool) : res (list N * list doc) :=
   let m := a_mids st in let r := a_rids st in
@@ -214,3 +217,5 @@ Fixpoint docs_of (ops : list op) : list doc :=
 Definition search_model_tx (ops : list op) (q : query) (from to : N) (rev : bool) (limit : N) (wt : bool)
            (hist : N) : res (list id * N) :=
   search_tx (run ops) q from to rev limit wt hist.
+
+End WithMatcher.
